@@ -399,9 +399,9 @@ Proof.
   - intros [oi k]. mr.
 Qed.
 
-Lemma print_dirs_rel l : Forall okP l -> mrel (print_dirs cf w1 l) (print_dirs cf w2 l).
+Lemma print_dirs_rel l : Forall okP l -> forall v, mrel (print_dirs cf w1 l v) (print_dirs cf w2 l v).
 Proof.
-  induction 1 as [|d r Hd _ IH]; cbn [print_dirs]; [apply mrel_ret|].
+  induction 1 as [|d r Hd _ IH]; intros v; cbn [print_dirs]; [apply mrel_ret|].
   destruct d; try apply mrel_fail.
   cbn [okP] in Hd. apply okP_all in Hd. pose proof (eval_list_rel _ Hd).
   destruct (lookup_directive name) as [[arglens x]|]; [|apply mrel_fail]. mr.
@@ -498,7 +498,7 @@ Proof.
   - (* NRawText *) mr.
   - (* NPrint *) destruct H as [Ha Hd]. apply okP_all in Hd. pose proof (Hw _ Ha). pose proof (print_dirs_rel _ Hd).
     apply mrel_bind; [assumption|]. intros v. destruct v; try apply mrel_fail.
-    all: apply mrel_bind; [assumption|]; intros ds; apply mrel_bind; [apply mrel_lift|]; intros str;
+    all: apply mrel_bind; [solve [auto]|]; intros ds; apply mrel_bind; [apply mrel_lift|]; intros str;
       apply mrel_get_bind; intros s1 s2 He; rewrite (eqv_mode _ _ He); mr.
   - (* NCss *) destruct expr as [x|]; [pose proof (eval_rel _ H)|]; mr.
   - (* NLog *) pose proof (render_block_rel _ H). mr.
